@@ -9,6 +9,7 @@
 let engines : (string * (string list -> string)) list = [
   "charset", E_charset.run;
   "regex", E_regex.run;
+  "merge", E_merge.run;
   "literal", E_literal.run;
   "partition", E_partition.run;
   "automata", E_automata.run;
@@ -19,6 +20,7 @@ let engines : (string * (string list -> string)) list = [
 (* engines with an oracle of their own: (cases tokens, impl result) -> None | Some msg *)
 let oracles : (string * (string list -> string -> string -> string option)) list = [
   "regex", E_regex.oracle;
+  "merge", E_merge.oracle;
   "literal", E_literal.oracle;
   "partition", E_partition.oracle;
   "automata", E_automata.oracle;
